@@ -8,6 +8,7 @@ CONSTANTS
   MaxCrashes = 0
   Coarse = FALSE
   StatByName = TRUE
+  StampFirst = FALSE
   KnownCauses = {}
 CHECK_DEADLOCK FALSE
 INVARIANT NoWitnessStatByName
